@@ -2078,6 +2078,22 @@ def check_C11(tier: str, seed: int) -> int:
             fr = ase.Frame(chunks=[ase.PaletteChunk(first=first, entries=ents, last=last)])
             exp = {first + j: e for j, e in enumerate(ents)}
             cases.append(("newrange", exp, ase.serialize(ase.Sprite(width=1, height=1, frames=[fr])), short, "first %d short %s" % (first, short)))
+        # precedence across frames: the new-format chunk and the legacy chunk(s) sit in different frames, in either order
+        for rep in range(40 if tier == "quick" else 400):
+            nfr = rng.randint(2, 4)
+            fnew, fold = rng.sample(range(nfr), 2)
+            first = rng.choice([0, 0, 2])
+            ents = [(rng.randrange(256), rng.randrange(256), rng.randrange(256), rng.choice([255, 128]), None) for _ in range(rng.randint(1, 5))]
+            six = rng.random() < 0.5
+            cols = [tuple(rng.randrange(64 if six else 256) for _ in range(3)) for _ in range(rng.randint(1, 9))]
+            frames = [ase.Frame() for _ in range(nfr)]
+            frames[fnew].chunks.append(ase.PaletteChunk(first=first, entries=ents))
+            frames[fold].chunks.append(ase.OldPaletteChunk(kind=ase.CT_OLD_PALETTE_11 if six else ase.CT_OLD_PALETTE_04, packets=[(0, cols)]))
+            if rng.random() < 0.4:      # a second legacy chunk somewhere else
+                frames[rng.randrange(nfr)].chunks.append(ase.OldPaletteChunk(kind=ase.CT_OLD_PALETTE_04, packets=[(1, [(7, 7, 7)])]))
+            exp = {first + j: e for j, e in enumerate(ents)}
+            cases.append(("crossframe", exp, ase.serialize(ase.Sprite(width=1, height=1, frames=frames)), False,
+                          "new palette in frame %d, legacy in frame %d" % (fnew, fold)))
         # indexed sprites with a pixel index absent from the (sparse) palette, or with no palette at all
         for rep in range(60 if tier == "quick" else 800):
             ids = sorted(rng.sample(range(0, 12), rng.randint(1, 5)))
@@ -2444,6 +2460,40 @@ def c12_inputs(rng: random.Random, tier: str) -> List[Tuple[str, bytes]]:
         ase.PaletteChunk(first=0, entries=[(1, 2, 3, 255)] * 65536)])]))))
     out.append(("30000 external files", ase.serialize(ase.Sprite(width=1, height=1, frames=[ase.Frame(chunks=[
         ase.ExternalFilesChunk(entries=[(i, "") for i in range(30000)])])]))))
+    # palette entries at huge 32-bit indices in an indexed sprite that has pixels (anything sized by the largest index shows up)
+    for first in (0x0FFFFFFF, 0x7FFFFFFF, 0xFFFFFFFE, 1 << 24, 65536):
+        for cel in (True, False):
+            ch = [ase.PaletteChunk(first=0, entries=[(1, 2, 3, 255)] * 2), ase.LayerChunk()]
+            ch.insert(1, ase.PaletteChunk(first=first, entries=[(9, 9, 9, 255)]))
+            pal_only_last = [ase.PaletteChunk(first=first, entries=[(9, 9, 9, 255)] * 2), ase.LayerChunk()]
+            for nm, chunks in (("two chunks", ch), ("one chunk", pal_only_last)):
+                chunks = list(chunks)
+                if cel:
+                    chunks.append(ase.CelChunk(layer=0, w=2, h=2, pixels=bytes([0, 1, 0, 1]), ctype_cel=0))
+                out.append(("indexed sprite, palette entry at index %d (%s, %s)" % (first, nm, "with a cel" if cel else "no cel"),
+                            ase.serialize(ase.Sprite(width=2, height=2, depth=8, frames=[ase.Frame(chunks=chunks)]))))
+    # constructs the loader refuses or skips, with their own declared lengths inflated: an ICC profile, user-data properties, an
+    # external tileset, unknown trailing data in known chunks
+    for ln in (0, 16, 1 << 20, 1 << 28, 2 ** 32 - 1):
+        icc = ase.RawChunk(ase.CT_COLOR_PROFILE, ase.u16(2) + ase.u16(0) + ase.u32(0) + b"\0" * 8 + ase.u32(ln) + b"\1" * 16)
+        out.append(("ICC colour profile declaring %d bytes" % ln, ase.serialize(ase.Sprite(width=1, height=1, frames=[ase.Frame(chunks=[icc, ase.LayerChunk()])]))))
+        props = ase.RawChunk(ase.CT_USER_DATA, ase.u32(1 | 4) + ase.ase_string("x") + ase.u32(ln) + ase.u32(ln) + ase.u32(0) + ase.u32(ln))
+        out.append(("user-data properties block declaring %d" % ln, ase.serialize(ase.Sprite(width=1, height=1, frames=[ase.Frame(chunks=[ase.LayerChunk(), props])]))))
+        ext = ase.RawChunk(ase.CT_TILESET, ase.u32(0) + ase.u32(1) + ase.u32(ln) + ase.u16(16) + ase.u16(16) + ase.u16(1) + b"\0" * 14
+                           + ase.ase_string("t") + ase.u32(ln) + ase.u32(ln))
+        out.append(("external tileset declaring %d tiles" % ln, ase.serialize(ase.Sprite(width=1, height=1, frames=[ase.Frame(chunks=[ext])]))))
+    # one large, highly compressible cel and many frames linking to it (anything materialised per link shows up)
+    for (cw, chh, nlink) in ((2048, 2048, 40), (1024, 1024, 400)) if tier == "quick" else ((2048, 2048, 40), (1024, 1024, 400), (4096, 2048, 300)):
+        z = ase.deflate(b"\x11" * (cw * chh * 4), 9)
+        frames = [ase.Frame(chunks=[ase.LayerChunk(), ase.CelChunk(layer=0, ctype_cel=2, w=cw, h=chh, zraw=z)])]
+        frames += [ase.Frame(chunks=[ase.CelChunk(layer=0, ctype_cel=1, linked=0)]) for _ in range(nlink)]
+        out.append(("%dx%d single-colour cel with %d linked frames" % (cw, chh, nlink), ase.serialize(ase.Sprite(width=4, height=4, frames=frames))))
+    # the same with a tilemap cel
+    z = ase.deflate(b"\0" * (2048 * 1024 * 4), 9)
+    frames = [ase.Frame(chunks=[ase.TilesetChunk(id=0, tile_count=1, tile_w=1, tile_h=1, pixels=b"\0" * 4), ase.LayerChunk(ltype=2, tileset=0),
+                                ase.CelChunk(layer=0, ctype_cel=3, w=2048, h=1024, zraw=z)])]
+    frames += [ase.Frame(chunks=[ase.CelChunk(layer=0, ctype_cel=1, linked=0)]) for _ in range(60)]
+    out.append(("2048x1024 tilemap cel with 60 linked frames", ase.serialize(ase.Sprite(width=4, height=4, frames=frames))))
     for name, data in special_files(rng):
         out.append(("special:" + name, data))
     return out
